@@ -434,7 +434,7 @@ def _jobs_for(prop, tier):
         return [j for j in jobs_option_below(tier) if j[1][3] == 'combinations'] + jobs_combinations(tier)
     if prop == 'C03':
         return jobs_c03(tier) + jobs_option_reduce(tier) + jobs_axis(tier, ('reduce',))
-    return {'C02': jobs_c02, 'C03': jobs_c03, 'C04': jobs_c04, 'C06': (lambda t: jobs_c06(t) + jobs_axis(t, ('sort', 'argsort')) + jobs_numpy_sort(t)), 'C08': (lambda t: jobs_c08(t) + jobs_numpy(t) + jobs_union(t) + jobs_reverse_merge(t) + jobs_record_merge(t) + jobs_list_merge(t) + [j for j in jobs_record_named(t) if j[0] is h_record_mergemany_named] + jobs_merge_union(t)), 'C17': jobs_c17, 'C12': jobs_numpy, 'C10': (lambda t: jobs_c10(t) + [j for j in jobs_record_named(t) if j[0] is h_record_field_key] + jobs_project(t) + [j for j in jobs_option_below(t) if j[1][3] == 'getitem_field']), 'C05': jobs_c05, 'C09': jobs_c09}.get(prop, lambda t: [])(tier)
+    return {'C02': jobs_c02, 'C03': jobs_c03, 'C04': jobs_c04, 'C06': (lambda t: jobs_c06(t) + jobs_axis(t, ('sort', 'argsort')) + jobs_numpy_sort(t)), 'C08': (lambda t: jobs_c08(t) + jobs_numpy(t) + jobs_union(t) + jobs_reverse_merge(t) + jobs_record_merge(t) + jobs_list_merge(t) + [j for j in jobs_record_named(t) if j[0] is h_record_mergemany_named] + jobs_merge_union(t)), 'C17': jobs_c17, 'C12': jobs_numpy, 'C10': (lambda t: jobs_c10(t) + [j for j in jobs_record_named(t) if j[0] is h_record_field_key] + jobs_project(t) + [j for j in jobs_option_below(t) if j[1][3] == 'getitem_field'] + jobs_record_setitem(t)), 'C05': jobs_c05, 'C09': jobs_c09}.get(prop, lambda t: [])(tier)
 
 
 # ------------------------------------------------------------------------------------------------ C01: getitem_next of list nodes
@@ -4119,3 +4119,47 @@ def h_merge_as_union(la, lb):
 
 def jobs_merge_union(tier):
     return [(h_merge_as_union, a, 900) for a in ([(2, 1), (0, 2)] if tier == 'quick' else [(2, 1), (0, 2), (3, 0), (0, 0), (1, 3)])]
+
+
+@guard
+def h_record_setitem(names, where, length, wlen_delta):
+    """RecordArray::setitem_field(name, what) with a name that is not yet a field: the result has every old field, unchanged and in order, followed
+    by the new field under the new name, and the same number of records; an array of another length is refused"""
+    names = tuple(names)
+    nc = NodeCtx(['REC', 'IA', 'IDX', 'CNT', 'UTL', 'KD', 'IDS'], [], unwind=max(16, 4 * len(names) + 12))
+    nc.m.eng.stubs.update(string_stubs(nc))
+    this, vals, lens = build_named_record(nc, names, length)
+    for l in lens:
+        nc.m.assume(l == length)          # minlength(contents) is the record count again only when no field is longer (a longer field is trimmed by other operations)
+    BASE = 1 << 32
+    kk = z3.BitVec('k!', 64)
+    wl = length + wlen_delta
+    what = nc.new_content_in(nc.m.mem, 'content_what', BV(wl), z3.Lambda([kk], kk + 99 * BASE), const=True)
+    whatp = nc.m.record('whatptr', {0: (what, 8), 8: (NULL, 8)}, const=True)
+    cells = {}
+    _string_cells(cells, 0, 'key', where)
+    kp = nc.m.record('key', cells, const=True)
+    nc.m.record('ret', {})
+    cands = [f for mod_ in nc.m.eng.mods for f in mod_.func_src if f.startswith('_ZNK7awkward11RecordArray13setitem_fieldERKNSt7__cxx1112basic_string')]
+    out = nc.m.call(cands[0], [Ptr('ret', 0), this, kp, whatp])
+    obls = [('raises exactly when the new field has another length than the record array', z3.simplify(out.raised) != z3.BoolVal(wlen_delta != 0))]
+    if wlen_delta == 0:
+        res = decode(nc, out.mem, nc.m.cell('ret', 0))
+        if res['cls'] != 'record' or len(res['contents']) != len(names) + 1:
+            obls.append(('the result is a record array with one more field', z3.BoolVal(True)))
+        else:
+            obls.append(('the number of records is unchanged', res['length'] != length))
+            got_names = _lookup_names(out.mem, res['recordlookup'])
+            obls.append(('the field names are the old ones followed by the new one (%s)' % got_names, z3.BoolVal(got_names != list(names) + [where])))
+            for j in range(len(names) + 1):
+                for i in range(length):
+                    obls += compare(nodeh.at(res['contents'][j], i), Elem(BV(i + (j if j < len(names) else 99) * BASE)), 'record %d field %d' % (i, j))
+    return mdischarge(nc.m, 'RecordArray%s::setitem_field("%s") new field of length %+d' % (list(names), where, wlen_delta), obls, [], replay=None,
+                      extra=dict(bounds='field names concrete (case split), %d records' % length))
+
+
+def jobs_record_setitem(tier):
+    q = [(('a', 'b'), 'c', 2, 0), (('a',), 'z', 1, 1), ((), 'x', 2, 0)]
+    if tier != 'quick':
+        q += [(('a', 'b', 'c'), 'd', 0, 0), (('x', 'y'), 'w', 3, -1)]
+    return [(h_record_setitem, a, 900) for a in q]
